@@ -18,7 +18,16 @@ def split_run(rng, root):
     new = etree.Element(w('r'), nsmap=None)
     for k, v in r.attrib.items(): new.set(k, v)
     rpr = r.find(w('rPr'))
-    if rpr is not None: new.append(copy.deepcopy(rpr))
+    if rpr is not None:
+        npr = copy.deepcopy(rpr); new.append(npr)
+        # the pieces of one run need not spell the same formatting the same way (another editor, another session)
+        for c in npr:
+            if c.tag in (w('b'), w('i'), w('strike'), w('caps'), w('smallCaps')) and c.get(w('val')) in (None, '1', 'true', 'on') and rng.random() < 0.5:
+                v = rng.choice([None, '1', 'true', 'on'])
+                if v is None: c.attrib.pop(w('val'), None)
+                else: c.set(w('val'), v)
+            if c.tag == w('u') and c.get(w('val')) not in (None, 'none') and rng.random() < 0.5:
+                c.set(w('val'), rng.choice(['single', 'double', 'thick', 'dotted']))
     for c in kids[cut:]: new.append(c)
     new.tail = r.tail; r.tail = None
     r.addnext(new)
